@@ -187,11 +187,14 @@ def stepHalves : StepFn K := fun _ t dt _ =>
 /-- JANUS (integrator_janus.c:251): `r->t += r->dt;` and `dt_last_done` is never written. -/
 def stepJanus : StepFn K := fun _ t dt dld => ⟨t + dt, dt, dld⟩
 
-/-- IAS15 (integrator_ias15.c:516,617-646,672-673) and BS (integrator_bs.c:792-797): the step is
-    either accepted (`t += dt_in`, `dt_last_done = dt_in`, `dt = dt_new`) or rejected
-    (`dt = dt_new`, nothing else).  The decisions are an oracle indexed by the call. -/
-def stepAdaptive (o : Nat → Bool × K) : StepFn K := fun k t dt dld =>
-  if (o k).1 then ⟨t + dt, (o k).2, dt⟩ else ⟨t, (o k).2, dld⟩
+/-- IAS15 (integrator_ias15.c:516,617-646,672-673,773) and BS (integrator_bs.c:792-797).
+    One `reb_simulation_step` either advances time by the step size it finally used
+    (`t += dt_done`, `dt_last_done = dt_done`, `dt = dt_new`; IAS15 retries inside the step with a
+    smaller `dt` until it succeeds, so `dt_done` need not be the `dt` on entry; for BS it is) or is
+    rejected as a whole (BS: `dt = dt_new`, nothing else).  The decisions `(accepted, dt_done, dt_new)`
+    are an oracle indexed by the call. -/
+def stepAdaptive (o : Nat → Bool × K × K) : StepFn K := fun k t _dt dld =>
+  if (o k).1 then ⟨t + (o k).2.1, (o k).2.2, (o k).2.1⟩ else ⟨t, (o k).2.2, dld⟩
 
 end steps
 
